@@ -940,7 +940,8 @@ defvjp(anp._array_from_scalar_or_array, array_from_scalar_or_array_gradmaker, ar
 @primitive
 def untake(x, idx, vs):
     if isinstance(idx, list) and (len(idx) == 0 or not isinstance(idx[0], slice)):
-        idx = onp.array(idx, dtype="int64")
+        idx = onp.array(idx)
+        idx = idx if idx.dtype == bool else idx.astype("int64")  # a list of booleans is a mask, not positions
 
     def mut_add(A):
         onp.add.at(A, idx, x)
